@@ -21,21 +21,22 @@ theorem mem_padded (c : Char) (toks : List (Str × Nat)) (h : c ∈ padded toks)
         · exact Or.inl e
         · exact Or.inr ⟨tn, by simp [htn], hc⟩
 
-theorem tok_no_nl (v t : Str) (h : Tok v t) (hv : '\n' ∉ v) : '\n' ∉ t := by
+theorem tok_no_nl (v t : Str) (h : Tok v t) (hv : NoBreak v) : NoBreak t := by
   cases h with
   | bare _ hb => exact hv
   | quoted q v hq _ =>
-    intro hm
-    have hqn : '\n' ≠ q := by rcases hq with rfl | rfl <;> decide
-    unfold quoteWith at hm
-    rcases List.mem_cons.mp hm with e | e
-    · exact hqn e
+    intro c hc
+    have hqn : isBreak q = false := by rcases hq with rfl | rfl <;> decide
+    unfold quoteWith at hc
+    rcases List.mem_cons.mp hc with e | e
+    · rw [e]; exact hqn
     · rcases List.mem_append.mp e with e | e
-      · exact hv e
-      · exact hqn (by simpa using e)
+      · exact hv c e
+      · have : c = q := by simpa using e
+        rw [this]; exact hqn
 
 theorem rowRel_no_nl (vals : List Str) (toks : List (Str × Nat)) (h : RowRel vals toks)
-    (hv : ∀ v ∈ vals, '\n' ∉ v) : ∀ tn ∈ toks, '\n' ∉ tn.1 := by
+    (hv : ∀ v ∈ vals, NoBreak v) : ∀ tn ∈ toks, NoBreak tn.1 := by
   induction h with
   | nil => simp
   | cons htok _ ih =>
@@ -43,6 +44,12 @@ theorem rowRel_no_nl (vals : List Str) (toks : List (Str × Nat)) (h : RowRel va
     rcases List.mem_cons.mp hx with e | e
     · subst e; exact tok_no_nl _ _ htok (hv _ (by simp))
     · exact ih (fun v hv' => hv v (by simp [hv'])) x e
+
+theorem noBreak_padded (toks : List (Str × Nat)) (h : ∀ tn ∈ toks, NoBreak tn.1) : NoBreak (padded toks) := by
+  intro c hc
+  rcases mem_padded _ _ hc with e | ⟨tn, htn, hct⟩
+  · rw [e]; decide
+  · exact h tn htn c hct
 
 /-- A row the writer can meet: non-empty, one width per value, every width larger than the
 escaped value, all values single-line without both quote characters. -/
@@ -55,7 +62,7 @@ structure GoodRow (ws : List Nat) (row : List Str) : Prop where
 /-- Everything the category reader needs to know about one written value line. -/
 theorem rowLine_facts (ws : List Nat) (row : List Str) (h : GoodRow ws row) :
     let L := rowLine ws (row.map escape)
-    strip L = L ∧ '\n' ∉ L ∧ L ≠ [] ∧ L.head? ≠ some ';' ∧ L.head? ≠ some '#' ∧ L.head? ≠ some '_' ∧
+    strip L = L ∧ NoBreak L ∧ L ≠ [] ∧ L.head? ≠ some ';' ∧ L.head? ≠ some '#' ∧ L.head? ≠ some '_' ∧
     splitOneLine L = .ok row := by
   intro L
   have hlen' : ws.length = (row.map escape).length := by simp [h.len]
@@ -86,12 +93,9 @@ theorem rowLine_facts (ws : List Nat) (row : List Str) (h : GoodRow ws row) :
     rw [hL]
     simp only [List.map_cons, padsOf]
     exact padded_head? _ _ _ (tok_ne_nil _ _ hs.1)
-  have hnl : '\n' ∉ L := by
+  have hnl : NoBreak L := by
     rw [hL]
-    intro hm'
-    rcases mem_padded _ _ hm' with e | ⟨tn, htn, hc⟩
-    · simp at e
-    · exact rowRel_no_nl _ _ hrel (fun x hx => singleLine_no_nl x (h.simple x hx).1) tn htn hc
+    exact noBreak_padded _ (rowRel_no_nl _ _ hrel (fun x hx => (h.simple x hx).1))
   refine ⟨hstrip, hnl, hLne, ?_, ?_, ?_, hsplit⟩
   · rw [hhead]; exact hs.2.semi
   · rw [hhead]; exact hs.2.hash
@@ -224,7 +228,12 @@ theorem table_looped (name : Str) (cols : List (Str × List Str)) (r : Nat)
       exact hne (by rw [hrect kv hkv, h0])
     have hr0 : (kv0.2.length == 0) = false := by rw [h0]; simp; omega
     have hr1 : (kv0.2.length == 1) = false := by rw [h0]; simp; omega
-    simp only [categorySerialize, hany, Bool.false_eq_true, if_false, hr0, hr1]
+    have hlab := labels_ok name ((kv0 :: rest).map (·.1)) hname (by
+      intro k hk
+      simp only [List.mem_map] at hk
+      obtain ⟨kv, hkv, rfl⟩ := hk
+      exact hkeys kv hkv)
+    simp only [categorySerialize, hlab, hany, Bool.false_eq_true, if_false, hr0, hr1]
     rw [h0, serializeLooped_eq]
     simp only [keyToks, keys, R, lineOf, ws, M, List.map_map, Function.comp_def, List.cons_append]
   refine ⟨sLoop :: (keyToks.map (· ++ [' '])) ++ R.map lineOf, hser, ?_⟩
@@ -248,19 +257,18 @@ theorem table_looped (name : Str) (cols : List (Str × List Str)) (r : Nat)
     · apply List.map_congr_left
       intro row hrow
       exact (hfacts row hrow).1
-  have hWnl : ∀ w ∈ W, '\n' ∉ w := by
+  have hWnl : ∀ w ∈ W, NoBreak w := by
     intro w hw
     simp only [W, List.cons_append, List.mem_cons, List.mem_append, List.mem_map] at hw
     rcases hw with rfl | ⟨t, ht, rfl⟩ | ⟨row, hrow, rfl⟩
     · decide
     · simp only [keyToks, List.mem_map] at ht
       obtain ⟨key, hkey, rfl⟩ := ht
-      intro hm
-      simp only [List.mem_append, List.mem_cons, List.mem_nil_iff, or_false] at hm
-      rcases hm with hm | hm
-      · have := keyTok_nows name key hname (hkeyOk key hkey) _ hm
-        simp [isWs_nl] at this
-      · simp at hm
+      intro c hc
+      rcases List.mem_append.mp hc with hm | hm
+      · exact noBreak_of_nows _ (keyTok_nows name key hname (hkeyOk key hkey)) c hm
+      · have : c = ' ' := by simpa using hm
+        rw [this]; decide
     · exact (hfacts row hrow).2.1
   have hWne : ∀ w ∈ W, isEmptyLine w = false := by
     intro w hw
